@@ -678,7 +678,8 @@ def classify(stage, prog, msg=""):
     feats.discard("two-fresh-values")
     body_family = {"conv-in-body-below-import", "inline-in-body-below-import", "conv-unknown-rank"}
     # adapt_node's own checker call on a singleton model with a shape-less value info
-    if stage == "build-raises-ValidationError" and "Field 'shape'" in msg and "conv-unknown-rank" in feats \
+    if stage in ("build-raises-ValidationError", "construct-raises-ValidationError") and "Field 'shape'" in msg \
+            and "conv-unknown-rank" in feats \
             and feats <= body_family:
         return "adapt:unknown-rank:build-fails"
     if bad_attr and "conv-in-body-below-import" in feats and feats <= body_family:
@@ -829,7 +830,7 @@ def gen_programs(ck):
         prog = g.program()
         progs.append(("clean" if clean else "dirty", prog))
         has_func = any(st["op"] == "func" for st, *_ in L.walk(prog["nodes"]))
-        has_dyn = any(st["op"] == "dyn" for st, *_ in L.walk(prog["nodes"]))
+        has_dyn = bool(L.tainted_ids(prog))  # values of unknown rank (run-time reshape, Loop results)
         if clean and not has_dyn and (has_func or rng.random() < 0.08):
             # multi-build history: the same Vars (function applications included) are first built into
             # a model with the original outputs, then into one whose maximum is raised by v21 identities
